@@ -22,11 +22,14 @@
   * `timedelta` range: every constructed or summed value must have |days| ≤ 999 999 999
     (else OverflowError).
 
-  Declined (`unsupported`): a non-ASCII character at a place where Python would consult the Unicode
-  database (`\d`, `int()`: Unicode decimal digits / whitespace).  Assumed: the interpreter's
-  `sys.get_int_max_str_digits()` is the default 4300.
+  Non-ASCII text: `\d` (a `str` pattern without `re.ASCII`) and `int()` accept every Unicode decimal digit
+  (`Py_UNICODE_ISDECIMAL` / `Py_UNICODE_TODECIMAL`: "P٣D" is three days) and `int()` reads Unicode white
+  space as blanks (`_PyUnicode_TransformDecimalAndSpaceToASCII`).  The two character tables are tabulated
+  from the running Python over all code points (KskmGen.decimalZeros, KskmGen.intSpaceRanges); nothing is
+  declined.  Assumed: the interpreter's `sys.get_int_max_str_digits()` is the default 4300.
 -/
 import Kskm.Data
+import KskmGen.Tables
 namespace Kskm
 
 /-! ### Python `int(str)` on ASCII text -/
@@ -77,13 +80,35 @@ def pyIntAscii (s : List Char) : Option Int :=
         let v : Int := (Nat.ofDigitChars 10 ds 0 : Nat)
         some (if neg then -v else v)
 
+/-- `Py_UNICODE_TODECIMAL`: the value of a decimal digit of any script (blocks 0 … 9 of the generated table) -/
+def pyDecimal? (c : Char) : Option Nat :=
+  (KskmGen.decimalZeros.find? fun z => decide (z ≤ c.toNat) && decide (c.toNat < z + 10)).map (c.toNat - ·)
+
+/-- `Py_UNICODE_ISDECIMAL`: what the `\d` of a `str` pattern matches -/
+def isPyDecimal (c : Char) : Bool := (pyDecimal? c).isSome
+
+/-- `Py_UNICODE_ISSPACE` of a non-ASCII character -/
+def isUniSpace (c : Char) : Bool :=
+  KskmGen.intSpaceRanges.any fun r => decide (r.1 ≤ c.toNat) && decide (c.toNat ≤ r.2)
+
+/-- `_PyUnicode_TransformDecimalAndSpaceToASCII`, one character: code points below 127 are kept, white
+    space becomes a blank, a decimal digit its ASCII digit, anything else "?" (the C function also drops
+    what follows the first "?"; no literal contains "?", so `int()` fails either way). -/
+def intTranslit (c : Char) : Char :=
+  if c.toNat < 127 then c
+  else if isUniSpace c then ' '
+  else
+    match pyDecimal? c with
+    | some d => Nat.digitChar d
+    | none => '?'
+
 /-- `int(s)` as far as the model judges it: `.ok none` = `ValueError`.
     An ASCII character that no literal can contain settles the matter (CPython keeps code points
     < 127 unchanged when it transliterates a non-ASCII string); otherwise a non-ASCII character means
-    the Unicode database decides and the model declines. -/
+    the Unicode database decides: the text is transliterated to ASCII first (`intTranslit`). -/
 def pyInt (s : List Char) : Res (Option Int) :=
   if s.any (fun c => decide (c.toNat < 128) && !intCharOk c) then pure none
-  else if s.any (fun c => decide (128 ≤ c.toNat)) then unsupported
+  else if s.any (fun c => decide (128 ≤ c.toNat)) then pure (pyIntAscii (s.map intTranslit))
   else pure (pyIntAscii s)
 
 /-! ### `timedelta` range -/
@@ -116,6 +141,31 @@ inductive DurStep where
   | more (rest : List Char) (timeSection : Bool) (acc : Int)
   deriving DecidableEq, Repr, Inhabited
 
+/-- One pass of the loop body when the digit run of `^(\d+?)([WDHMS])(.*)` meets a non-ASCII character:
+    the same steps as `durationStep` below, after its "T" handling (`s1`, `ts`), with `\d` = any Unicode
+    decimal digit and `int(num_str)` of the transliterated run. -/
+def durationStepUni (s1 : List Char) (ts : Bool) (acc : Int) : Res DurStep :=
+  let ds := (s1.takeWhile isPyDecimal).map intTranslit
+  let r1 := s1.dropWhile isPyDecimal
+  match r1 with
+  | [] => err .value
+  | w :: r2 =>
+    if !isDesignator w then err .value
+    else if ds.isEmpty then err .value
+    else if ds.length > maxStrDigits then err .value
+    else do
+      let rest := r2.takeWhile (· ≠ '\n')
+      let num : Int := (Nat.ofDigitChars 10 ds 0 : Nat)
+      if w = 'M' && !ts then err .notImplemented
+      let unit ← tdCheck (num * unitUs w)
+      let acc1 ← tdCheck (acc + unit)
+      match ← pyInt rest with
+      | some v =>
+        let tail ← tdCheck (v * usPerSecond)
+        let total ← tdCheck (acc1 + tail)
+        pure (.done total)
+      | none => pure (.more rest ts acc1)
+
 /-- One pass of the loop body on a non-empty `duration`. -/
 def durationStep (s : List Char) (timeSection : Bool) (acc : Int) : Res DurStep :=
   -- `if duration.startswith("T"): time_section = True; duration = duration[1:]`
@@ -129,7 +179,7 @@ def durationStep (s : List Char) (timeSection : Bool) (acc : Int) : Res DurStep 
   | w :: r2 =>
     if !isDesignator w then
       -- a non-ASCII character here may be a Unicode decimal digit continuing `\d+?`
-      if 128 ≤ w.toNat then unsupported else err .value
+      if 128 ≤ w.toNat then durationStepUni s1 ts acc else err .value
     else if ds.isEmpty then err .value     -- a designator with no number
     else if ds.length > maxStrDigits then err .value   -- `int(num_str)` refuses
     else do
